@@ -3,6 +3,7 @@
 package adminapi
 
 import (
+	"encoding/hex"
 	"time"
 	"bufio"
 	"fmt"
@@ -121,6 +122,40 @@ func TestVerifDriver(t *testing.T) {
 						h = NewMux(lb, cfg, lb.GetMetricsCollector())
 						res = "ok"
 					}
+				}
+			case "padd", "prm":
+				// adm padd <name|-> <address|-> <weight|->   POST /v1/backends/add with exactly the listed keys in the JSON body
+				// adm prm <name|->                            POST /v1/backends/remove
+				// (an administrator in good standing: the configured token, a loopback peer); the answer is the status and
+				// the listing afterwards — what a request does depends on its own body only, not on the requests before it
+				if h != nil && ((w[1] == "padd" && len(w) == 5) || (w[1] == "prm" && len(w) == 3)) {
+					var keys []string
+					path := "/v1/backends/remove"
+					if v := unesc(w[2]); w[2] != "-" {
+						keys = append(keys, fmt.Sprintf(`"name":%q`, v))
+					}
+					if w[1] == "padd" {
+						path = "/v1/backends/add"
+						if v := unesc(w[3]); w[3] != "-" {
+							keys = append(keys, fmt.Sprintf(`"address":%q`, v))
+						}
+						if w[4] != "-" {
+							keys = append(keys, `"weight":`+w[4])
+						}
+					}
+					req := httptest.NewRequest("POST", "http://admin.local"+path, strings.NewReader("{"+strings.Join(keys, ",")+"}"))
+					if cfg.AdminAPI.AuthToken != "" {
+						req.Header.Set("Authorization", "Bearer "+cfg.AdminAPI.AuthToken)
+					}
+					req.RemoteAddr = "127.0.0.1:40000"
+					rec := httptest.NewRecorder()
+					h.ServeHTTP(rec, req)
+					var ents []string
+					for _, b := range lb.ListBackends() {
+						ents = append(ents, fmt.Sprintf("%s|%d|%s", hex.EncodeToString([]byte(b.Name)), b.Weight, hex.EncodeToString([]byte(b.Address))))
+					}
+					sort.Strings(ents)
+					res = fmt.Sprintf("code=%d list=%s", rec.Code, strings.Join(ents, ","))
 				}
 			case "req":
 				// adm req <method> <path> <authz|-> <remote> <peerparsed> <xff|-> <xri|-> <bodykind>
